@@ -401,6 +401,10 @@ pub fn c08(tier: Tier, seed: u64) -> Prop {
     }
     units.extend(flow_units(tier, seed));
     units.extend(deep_units(tier));
+    // ---- "@aa:24 is taken as is" also when the call's own stack frame lands on its extension words (unit shared with C05)
+    for u in super::flow::c05(tier, seed).units.into_iter().filter(|u| u.name == "calls/frame-over-code") {
+        units.push(u);
+    }
     Prop {
         id: "C08",
         level: "exploration",
